@@ -817,7 +817,19 @@ fn stress_case(env: &mut Env, srt: &tokio::runtime::Runtime, rng: &mut Rng, idx:
             false
         }
     });
-    srt.block_on(async { tokio::time::sleep(Duration::from_millis(2)).await });
+    srt.block_on(async {
+        tokio::time::sleep(Duration::from_millis(2)).await;
+        // the join handle completes before the supervisor has WORKED OFF the terminal event it was sent:
+        // wait (bounded) until it shows up instead of trusting the 2 ms above on a loaded machine
+        if exited {
+            for _ in 0..3000 {
+                if events.lock().unwrap().iter().any(|e: &String| e.starts_with("Terminated") || e.starts_with("Failed")) {
+                    break;
+                }
+                tokio::time::sleep(Duration::from_millis(1)).await;
+            }
+        }
+    });
     let mut all = recs.lock().unwrap().clone();
     all.extend(shared.self_recs.lock().unwrap().iter().cloned());
     all.sort_by_key(|r| r.0);
